@@ -9,6 +9,11 @@ CLAIMED = {
         note="Reals in the theorems, binary64 in the correspondence (rounding outside the theorems); non-degenerate triangle; extraction (ExtrOcamlBasic+ExtrOCamlFloats) and the hand-written driver/generator are trusted; axioms: the three Reals axioms of the standard library.",
         technique="Coq proof over R of a hand-written Gallina model + bit-exact differential correspondence (extracted model vs C++) + exact rational oracle",
         design="§6 C05"),
+    "C20": dict(
+        text="Theorems about the Gallina transcription of uspg_abstract/uspg_4d/uspg_3d (Grid.v) at R with Flocq's Zfloor/Zceil: every point of the closed declared box maps to an existing voxel, the flattened id is injective and inside the vector, placed objects are retrievable and other voxels unchanged, the full-content query is a permutation of the objects placed, a neighbourhood query contains every stored object within one voxel size (max-norm) and only stored objects. The same Gallina functions at binary64 (exact floor via Prim2SF) are compared with uspg_4d<int>/uspg_3d<int> built from /repo under ASan/UBSan; the property oracle (range, retrievability, neighbourhood, content) judges the implementation's outputs.",
+        note="Reals in the theorems (a float-level statement at distance exactly one voxel size is not claimed); correspondence on generated grids incl. extents that are exact multiples of the voxel size and points on the upper boundary; extraction incl. ExtrOCamlInt63; ASan as observer of out-of-range walks.",
+        technique="Coq proof over R/Z of a hand-written Gallina model + differential correspondence (extracted model vs C++ under sanitizers) + property oracle",
+        design="§6 C20"),
 }
 
 PENDING_REASON = "not claimed yet: model, theorems and correspondence for this property are still being built (see DESIGN.md §9 staging); nothing is asserted about it"
